@@ -52,6 +52,7 @@ static inline myth_thread_t get_new_myth_thread_struct_desc(myth_running_env_t e
 #endif
   void * v_ret = myth_freelist_pop(&env->freelist_desc);
   if (v_ret){
+    MYTH_VERIF_ALLOC(MVA_DESC, v_ret, 0, env->rank);
     return v_ret;
   } else {
     //Allocate
@@ -92,6 +93,7 @@ static inline myth_thread_t get_new_myth_thread_struct_desc(myth_running_env_t e
     env->prof_data.daddlist_cycles += t3 - t2;
 #endif
   }
+  MYTH_VERIF_ALLOC(MVA_DESC, ret, sizeof(struct myth_thread), env->rank);
   return ret;
 #else
   myth_thread_t ret;
@@ -174,10 +176,12 @@ th_ptr -> 4080-4087:
     th_ptr += size_in_bytes - (sizeof(void*) * 2);
     uintptr_t *blk_size = (uintptr_t*) (th_ptr + sizeof(void*));
     *blk_size = size_in_bytes;
+    MYTH_VERIF_ALLOC(MVA_STACK, th_ptr, size_in_bytes, env->rank);
     return th_ptr;
   }
   void * ret = myth_freelist_pop(&env->freelist_stack);
   if (ret) {
+    MYTH_VERIF_ALLOC(MVA_STACK, ret, 0, env->rank);
     return ret;
   } else {
     //Allocate
@@ -229,6 +233,7 @@ th_ptr -> 4080-4087:
     env->prof_data.saddlist_cycles += t3 - t2;
 #endif /* MYTH_ALLOC_PROF */
   }
+  MYTH_VERIF_ALLOC(MVA_STACK, ret, 0, env->rank);
   return ret;
 #else
   return NULL;
@@ -273,6 +278,7 @@ static inline void free_myth_thread_struct_desc(myth_running_env_t e,myth_thread
 #if MYTH_DESC_REUSE_CHECK
   myth_spin_unlock_body(&th->sanity_check);
 #endif
+  MYTH_VERIF_FREE(MVA_DESC, th, sizeof(struct myth_thread), e->rank);
   //Add to a freelist
   myth_freelist_push(&e->freelist_desc,(void*)th);
 #else
@@ -303,6 +309,7 @@ static inline void free_myth_thread_struct_stack(myth_running_env_t e,myth_threa
     ptr = (void**)th->stack;
 
     uintptr_t *blk_size = (uintptr_t*)(((uint8_t*)ptr) + sizeof(void*));
+    MYTH_VERIF_FREE(MVA_STACK, ptr, *blk_size, e->rank);
     if (*blk_size == 0) {
       myth_freelist_push(&e->freelist_stack, ptr);
     } else {
@@ -337,7 +344,9 @@ MYTH_CTX_CALLBACK void myth_create_1(void *arg1,void *arg2,void *arg3) {
 #endif
 
   //Push current thread to runqueue
+  MYTH_VERIF_POINT(MVP_CREATE_CB_A);
   myth_queue_push(&env->runnable_q, this_thread);
+  MYTH_VERIF_POINT(MVP_CREATE_CB_B);
 
 #if MYTH_CREATE_PROF_DETAIL
   t1 = myth_get_rdtsc();
@@ -473,7 +482,9 @@ static inline int myth_create_ex_body(myth_thread_t * id,
 #endif /* MYTH_CREATE_PROF */
 
     //Push a new thread to runqueue
+    MYTH_VERIF_POINT(MVP_CREATE_A);
     myth_queue_push(&env->runnable_q, new_thread);
+    MYTH_VERIF_POINT(MVP_CREATE_B);
 #if MYTH_CREATE_PROF
     t1 = myth_get_rdtsc();
     env->prof_data.create_cycles += t1 - t0;
@@ -514,7 +525,9 @@ MYTH_CTX_CALLBACK void myth_join_2(void *arg1,void *arg2,void *arg3)
   myth_running_env_t env=arg1;
   myth_thread_t th=arg2,next_thread=arg3;
   //Set join target
+  MYTH_VERIF_POINT(MVP_JOIN_CB_A);
   myth_desc_join_set(th,env->this_thread);
+  MYTH_VERIF_POINT(MVP_JOIN_CB_B);
   myth_spin_unlock_body(&th->lock);
   //Change current running thread
   env->this_thread=next_thread;
@@ -526,7 +539,9 @@ MYTH_CTX_CALLBACK void myth_join_3(void *arg1,void *arg2,void *arg3)
   myth_thread_t this_thread=arg1,th=arg2;
   (void)arg3;
   //Set join target
+  MYTH_VERIF_POINT(MVP_JOIN_CB_A);
   myth_desc_join_set(th,this_thread);
+  MYTH_VERIF_POINT(MVP_JOIN_CB_B);
   //Change current running thread
   myth_spin_unlock_body(&th->lock);
 }
@@ -596,7 +611,8 @@ static inline int myth_join_body(myth_thread_t th,void **result) {
     myth_dprintf("myth_join:join thread (%p) is already finished. Return immediately\n",th);
 #endif
     myth_spin_unlock_body(&th->lock);
-    while (th->status != MYTH_STATUS_FREE_READY2);
+    while (th->status != MYTH_STATUS_FREE_READY2) { MYTH_VERIF_SPIN(MVS_JOIN_READY2_A); }
+    MYTH_VERIF_POINT(MVP_JOIN_A);
 #if MYTH_JOIN_PROF_DETAIL
     if (result) *result = th->result;
     t1 = myth_get_rdtsc();
@@ -618,6 +634,7 @@ static inline int myth_join_body(myth_thread_t th,void **result) {
     return 0;
   }
   //Set current thread as blocked
+  MYTH_VERIF_POINT(MVP_JOIN_B);
   myth_desc_set_not_runnable(this_thread);
 #if MYTH_JOIN_DEBUG
   myth_dprintf("myth_join:%p is added to %p's waiting list\n",this_thread,th);
@@ -663,7 +680,8 @@ static inline int myth_join_body(myth_thread_t th,void **result) {
   //Get return value
   myth_spin_unlock_body(&th->lock);
 #endif
-  while (th->status != MYTH_STATUS_FREE_READY2) { }
+  while (th->status != MYTH_STATUS_FREE_READY2) { MYTH_VERIF_SPIN(MVS_JOIN_READY2_B); }
+  MYTH_VERIF_POINT(MVP_JOIN_RESUMED);
   // use myth_get_current_env_noinline here to prevent compiler from sharing
   // the same g_worker_rank before and after context switching
   myth_join_1(myth_get_current_env_noinline(),th,result);
@@ -690,7 +708,8 @@ static inline int myth_tryjoin_body(myth_thread_t th,void **result) {
   //If target is finished, return
   if (myth_desc_is_finished(th)){
     myth_spin_unlock_body(&th->lock);
-    while (th->status != MYTH_STATUS_FREE_READY2) { }
+    while (th->status != MYTH_STATUS_FREE_READY2) { MYTH_VERIF_SPIN(MVS_TRYJOIN_READY2); }
+    MYTH_VERIF_POINT(MVP_TRYJOIN_A);
     myth_join_1(env,th,result);
     //myth_log_add(env,MYTH_LOG_USER);
     return 0;
@@ -734,6 +753,7 @@ static inline int myth_timedjoin_body(myth_thread_t th,
       if (myth_tryjoin_body(th, result) == 0) {
 	return 0;
       } else {
+	MYTH_VERIF_SPIN(MVS_TIMEDJOIN);
 	myth_yield_ex_body(myth_yield_option_local_first);
       }
     }
@@ -855,6 +875,7 @@ static inline int myth_create_join_many_ex_body(myth_thread_t * ids,
 
 static inline int myth_detach_body(myth_thread_t th)
 {
+  MYTH_VERIF_POINT(MVP_DETACH_A);
   if (th->status==MYTH_STATUS_FREE_READY2){
     //If a thread is finished, just release resource
     free_myth_thread_struct_desc(myth_get_current_env(),th);
@@ -864,10 +885,11 @@ static inline int myth_detach_body(myth_thread_t th)
   myth_spin_lock_body(&th->lock);
   if (myth_desc_is_finished(th)){//If a thread is finished, release resource
     myth_spin_unlock_body(&th->lock);
-    while (th->status!=MYTH_STATUS_FREE_READY2);
+    while (th->status!=MYTH_STATUS_FREE_READY2) { MYTH_VERIF_SPIN(MVS_DETACH_READY2); }
     free_myth_thread_struct_desc(myth_get_current_env(),th);
   }
   else{//Set a thread as detached
+    MYTH_VERIF_POINT(MVP_DETACH_B);
     myth_desc_set_detached(th);
     myth_spin_unlock_body(&th->lock);
   }
@@ -959,7 +981,9 @@ MYTH_CTX_CALLBACK void myth_yield_ex_1(void * arg1, void * arg2, void * arg3) {
   myth_thread_t this_thread = arg2;
   myth_thread_t next_thread = arg3;
   //Push current thread to the tail of runqueue
+  MYTH_VERIF_POINT(MVP_YIELD_CB_A);
   myth_queue_put(&env->runnable_q, this_thread);
+  MYTH_VERIF_POINT(MVP_YIELD_CB_B);
   env->this_thread = next_thread;
   next_thread->env = env;
 }
@@ -977,6 +1001,7 @@ static inline int myth_yield_ex_body(int opt) {
 #endif
   //Get next runnable thread
   next = NULL;
+  MYTH_VERIF_POINT(MVP_YIELD_A);
   switch (opt) {
   case myth_yield_option_half_half: {
     if (myth_random(0, 2) == 0) {
@@ -1046,6 +1071,7 @@ static inline int myth_nanosleep_body(const struct timespec *req,
   while (1) {
     hr_gettime(cur);
     if (myth_timespec_gt(cur, unt)) break;
+    MYTH_VERIF_SPIN(MVS_SLEEP);
     myth_yield_body();
   }
   return 0;
@@ -1101,7 +1127,9 @@ MYTH_CTX_CALLBACK void myth_entry_point_1(void *arg1,void *arg2,void *arg3)
   env->prof_data.ep_switch += t1-env->prof_data.ep_d_tmp;
   t0 = myth_get_rdtsc();
 #endif
+  MYTH_VERIF_POINT(MVP_EXIT_CB_A);
   free_myth_thread_struct_stack(env,this_thread);
+  MYTH_VERIF_POINT(MVP_EXIT_CB_B);
   if (this_thread->detached){
     //The thread is detached. Release resource
 #if MYTH_ENTRY_POINT_DEBUG
@@ -1116,7 +1144,9 @@ MYTH_CTX_CALLBACK void myth_entry_point_1(void *arg1,void *arg2,void *arg3)
     myth_spin_unlock_body(&this_thread->lock);
     this_thread->status = MYTH_STATUS_FREE_READY2;
 #else
+    MYTH_VERIF_POINT(MVP_EXIT_CB_C);
     this_thread->status=MYTH_STATUS_FREE_READY2;
+    MYTH_VERIF_POINT(MVP_EXIT_CB_D);
     myth_spin_unlock_body(&this_thread->lock);
 #endif
   }
@@ -1150,7 +1180,9 @@ MYTH_CTX_CALLBACK void myth_entry_point_2(void *arg1,void *arg2,void *arg3)
   env->prof_data.ep_switch+=t1-env->prof_data.ep_d_tmp;
   t0=myth_get_rdtsc();
 #endif
+  MYTH_VERIF_POINT(MVP_EXIT_CB_A);
   free_myth_thread_struct_stack(env,this_thread);
+  MYTH_VERIF_POINT(MVP_EXIT_CB_B);
   if (this_thread->detached){
     //The thread is detached. Release resource
 #if MYTH_ENTRY_POINT_DEBUG
@@ -1165,7 +1197,9 @@ MYTH_CTX_CALLBACK void myth_entry_point_2(void *arg1,void *arg2,void *arg3)
     myth_spin_unlock_body(&this_thread->lock);
     this_thread->status=MYTH_STATUS_FREE_READY2;
 #else
+    MYTH_VERIF_POINT(MVP_EXIT_CB_C);
     this_thread->status=MYTH_STATUS_FREE_READY2;
+    MYTH_VERIF_POINT(MVP_EXIT_CB_D);
     myth_spin_unlock_body(&this_thread->lock);
 #endif
   }
@@ -1208,6 +1242,7 @@ static inline void myth_entry_point_cleanup(myth_thread_t this_thread) {
 #endif
   this_thread_v = this_thread;
   myth_spin_lock_body(&this_thread->lock);
+  MYTH_VERIF_POINT(MVP_EXIT_A);
   myth_thread_t wait_thread = this_thread_v->join_thread;
   //Execute a thread waiting for current thread
   if (wait_thread){
@@ -1245,6 +1280,7 @@ static inline void myth_entry_point_cleanup(myth_thread_t this_thread) {
 #endif
   
   //Get next runnable thread
+  MYTH_VERIF_POINT(MVP_EXIT_B);
   myth_thread_t next = myth_queue_pop(&env->runnable_q);
 
 #if MYTH_EP_PROF_DETAIL
